@@ -82,10 +82,7 @@ def entries():
             pins = dict(BASE_PINS.get((mode, key), {}))
             if len(b) == 3:  # MGA: type byte pinned
                 pins[0] = b[2]
-                # MGA types are routed only where the class/ID has a variant rule in that mode
-                sel = L.select_entry(mode, b[0:2], bytes([b[2]]), UBX_MSGIDS)
-                routed = sel is not None and sel[1] == key
-                out.append(Entry(mode, key, pdict, b[0:2], pins, None, routed))
+                out.append(Entry(mode, key, pdict, b[0:2], pins, None, True))
             else:
                 out.append(Entry(mode, key, pdict, b, pins, None, True))
     return out
